@@ -105,6 +105,16 @@ def gen_tree(rng, bs, named, nested=True, allow_empty=True):
             fr = rng.choice([0, 1])
             feat = tuple(rng.choice([1, 2, 3]) for _ in range(fr))
             sub.append((f"y{i}", leaf(nbs + feat)))
+        if rng.random() < 0.25:
+            # a second level: a tensordict nested in the nested one, its batch longer again (or equal)
+            ext2 = tuple(rng.choice([1, 2]) for _ in range(rng.choice([0, 1])))
+            n2 = nbs + ext2
+            nn2 = None
+            if nnames is not None:
+                extra2 = [n for n in NAME_POOL if n not in nnames][: len(ext2)]
+                nn2 = list(nnames) + [e if rng.random() < 0.6 else None for e in extra2]
+            sub2 = [(f"z{i}", leaf(n2 + tuple(rng.choice([1, 2]) for _ in range(rng.choice([0, 1]))))) for i in range(rng.choice([0, 1, 1]))]
+            sub.insert(rng.randrange(len(sub) + 1), ("m", node(n2, nn2, sub2)))
         pos = rng.randrange(len(entries) + 1)
         entries.insert(pos, ("n", node(nbs, nnames, sub)))
     return node(bs, names, entries)
@@ -550,7 +560,7 @@ def incoherent(td):
 NAME_KEEPING_OPS = ("squeeze", "unsqueeze", "transpose", "permute", "flatten", "unflatten", "unbind", "split", "splitlist", "chunk")
 
 
-def check_entries(r, spec, n, ref, prefix, keep_names=None):
+def check_entries(r, spec, n, ref, prefix, keep_names=None, src_rank=None):
     """every leaf equals `source.reshape(numel(batch), *rest)[ref]` (the op on the batch dims, rest untouched);
     every nested node has batch `ref.shape + ext`"""
     for k, e in spec[3]:
@@ -573,10 +583,14 @@ def check_entries(r, spec, n, ref, prefix, keep_names=None):
             if e[2] is not None and keep_names is not None:
                 # "names travel with their dims … nested tensordicts are transformed recursively": the nested result is named like the
                 # parent on the parent's dims ('*' = any) and keeps the names of its own extra dims
-                want = list(keep_names) + list(e[2][n:])
+                sr = n if src_rank is None else src_rank          # rank of the source node `keep_names` stands for
+                want = list(keep_names) + list(e[2][sr:])
                 if not names_ok(list(v.names), want):
                     return f"nested-names {prefix + (k,)}: {list(v.names)} expected {want}"
-            bad = check_entries(v, e, n, ref, prefix + (k,), keep_names=(list(keep_names) + list(e[2][n:]) if keep_names is not None and e[2] is not None else None))
+            sr = n if src_rank is None else src_rank
+            bad = check_entries(v, e, n, ref, prefix + (k,),
+                                keep_names=(list(keep_names) + list(e[2][sr:]) if keep_names is not None and e[2] is not None else None),
+                                src_rank=len(e[1]))
             if bad:
                 return bad
     return None
@@ -657,7 +671,8 @@ def drop_key(spec, key):
 
 def gen_ext(rng):
     """one case of the ops the model does not cover: (kind, specs, args)"""
-    kind = rng.choice(["repeat", "repeat_interleave", "gather", "masked_select", "stack", "cat", "stack_out", "cat_out", "cat_lazy_out", "stack_lazy_out"])
+    kind = rng.choice(["repeat", "repeat_interleave", "gather", "masked_select", "stack", "cat", "stack_out", "cat_out", "cat_lazy_out", "stack_lazy_out",
+                       "stack_lazy_in", "stack_lazy_in", "cat_lazy_in"])
     wild = rng.random() < 0.2      # out-of-range dims / negative repeats
     # (repeat on a 0-d batch would be `td.repeat()` with no repeats: torch's varargs API has no such spelling)
     rank = rng.choice([0, 1, 2, 2, 3, 3, 4]) if kind in ("stack", "stack_out") else rng.choice([1, 2, 2, 3, 3, 4])
@@ -702,6 +717,19 @@ def gen_ext(rng):
     if kind in ("stack", "stack_out"):
         d = rng.randint(-n - 3, n + 2) if wild else rng.randint(-n - 1, n)
         return kind, [spec] * k, (d,)
+    if kind in ("stack_lazy_in", "cat_lazy_in"):
+        # the OPERANDS are lazy stacks with one stack dim and one key set, their members filled in different key orders (entries of
+        # different feature shapes): every dim, incl. the operands' own stack dim
+        bs2 = tuple(max(x, 1) for x in bs)
+        spec = gen_tree(rng, bs2, named=False, nested=rng.random() < 0.3, allow_empty=False)
+        sd = rng.randrange(n)
+        if kind == "stack_lazy_in":
+            d = rng.randint(-n - 1, n)
+            return kind, [spec] * k, (d, sd, tuple(rng.randrange(3) for _ in range(k)))
+        d = rng.randrange(-n, n)
+        dd = d + n if d < 0 else d
+        specs = [resize_dim(spec, dd, rng.choice([1, 2, 3])) if dd != sd else spec for _ in range(k)]
+        return kind, specs, (d, sd, tuple(rng.randrange(3) for _ in range(k)))
     if kind == "stack_lazy_out":
         spec = gen_tree(rng, tuple(max(x, 1) for x in bs), named=False, nested=False, allow_empty=False)
         d = rng.randint(-n - 1, n)
@@ -728,10 +756,10 @@ def ext_names(kind, names, n, args):
         if kind == "repeat_interleave" and args[1] is None and n > 1:
             return None
         return list(names)
-    if kind in ("stack", "stack_out", "stack_lazy_out"):
+    if kind in ("stack", "stack_out", "stack_lazy_out", "stack_lazy_in"):
         d = args[0] + n + 1 if args[0] < 0 else args[0]
         return list(names[:d]) + [None] + list(names[d:])
-    if kind == "cat_lazy_out":
+    if kind in ("cat_lazy_out", "cat_lazy_in"):
         return list(names)
     if kind == "masked_select":
         # the dims under the mask collapse into one unnamed dim; the remaining batch dims keep their names (as with td[mask])
@@ -773,6 +801,12 @@ def oracle_ext(run, kind, specs, args, site="shape_op_ext", container=None, rng=
         if kind == "masked_select":
             return x.masked_select(args[0]) if not isinstance(x, torch.Tensor) else x[args[0]]
         f = torch.stack if kind.startswith("stack") else torch.cat
+        if kind in ("stack_lazy_in", "cat_lazy_in"):
+            if isinstance(x, torch.Tensor):
+                return f(list(objs), args[0])
+            ops = [build_lazy_operand(sp_, args[1], 100000 * j, args[2][j]) for j, sp_ in enumerate(specs)]
+            r = f(ops, args[0])
+            return densify(r)
         if kind == "stack_lazy_out":
             if isinstance(x, torch.Tensor):
                 return torch.stack(list(objs), args[0])
@@ -819,12 +853,18 @@ def oracle_ext(run, kind, specs, args, site="shape_op_ext", container=None, rng=
                 or (kind == "masked_select" and ref.shape[0] == 0):
             # (repeat_interleave without dim flattens first: `reshape(-1)` is again a lazy stack, along dim 0)
             pfx = "empty-stack-result:"
+    src_before = [meta_canon(t) for t in tds] if container is None else None
     try:
         with time_limit(30.0):
             res = go(tds, use_out=kind.endswith("_out"))
         ierr = None
     except Exception as e:  # noqa: BLE001
         res, ierr = None, e
+    if src_before is not None and not isinstance(ierr, TimeoutError):
+        src_after = [meta_canon(t) for t in tds]
+        if src_after != src_before:
+            run.oracle_fail(site, case, "an operand was modified by the (out-of-place) op", f"{pfx}{kind}:source-modified")
+            return
     if ierr is None and container is not None:
         try:
             with time_limit(30.0):
@@ -896,7 +936,7 @@ def oracle_ext(run, kind, specs, args, site="shape_op_ext", container=None, rng=
 
 
 def check_ext_entries(res, specs, n, kind, args, ref, prefix):
-    multi = kind in ("stack", "cat", "stack_out", "cat_out", "cat_lazy_out", "stack_lazy_out")
+    multi = kind in ("stack", "cat", "stack_out", "cat_out", "cat_lazy_out", "stack_lazy_out", "stack_lazy_in", "cat_lazy_in")
     for j, (k, e) in enumerate(specs[0][3]):
         v = res.get(k)
         es = [s[3][j][1] for s in specs]
@@ -968,7 +1008,7 @@ def build_select(spec, d, i, off=0):
     return TensorDict(src, batch_size=[x for j, x in enumerate(bs) if j != d], names=nm)
 
 
-def build_container(spec, kind, rng):
+def build_container(spec, kind, rng, stack_dim=None):
     """(container, spec it represents) for kind in {'lazy', 'tc'}; None if the kind does not apply"""
     if kind == "tc":
         td = build(spec)
@@ -978,9 +1018,11 @@ def build_container(spec, kind, rng):
     if not dims:
         return None, None
     from tensordict import LazyStackedTensorDict
-    sp = strip_names(spec)
-    d = rng.choice(dims)
-    cont = LazyStackedTensorDict.lazy_stack([build_select(sp, d, i) for i in range(bs[d])], d)
+    # named lazy stacks too: the members carry the names of their dims, the stack dim its own (`stack_dim_name`)
+    sp = spec if (spec[2] is not None and rng.random() < 0.6) else strip_names(spec)
+    d = rng.choice(dims) if stack_dim is None else stack_dim
+    sdn = None if sp[2] is None else sp[2][d]
+    cont = LazyStackedTensorDict.lazy_stack([build_select(sp, d, i) for i in range(bs[d])], d, stack_dim_name=sdn)
     cont._c02_stack_dim = d
     return cont, sp
 
@@ -992,21 +1034,29 @@ def densify(x):
     if hasattr(x, "_tensordict") and not isinstance(x, TensorDict):
         x = x._tensordict
     if isinstance(x, LazyStackedTensorDict):
-        return x.contiguous()
+        dense = x.contiguous()
+        # the NAMES under test are those of the lazy result (contiguous() itself forgets the stack dim's name when the members are
+        # unnamed: `_has_names()` of a lazy stack only looks at the members — observation, not a C02 matter)
+        try:
+            if list(dense.names) != list(x.names):
+                dense.names = list(x.names)
+        except Exception:  # noqa: BLE001
+            pass
+        return dense
     return x
 
 
 LAZY_OPS = ("permute", "transpose", "squeeze", "unsqueeze", "unbind", "split", "chunk", "splitlist")
 
 
-def run_container(run, spec, op, kind, rng, malformed=False):
+def run_container(run, spec, op, kind, rng, malformed=False, stack_dim=None):
     """the same case on another container kind (oracle only).  A tensorclass delegates to the TensorDict code (same site,
     so the same known findings apply).  Lazy stacks have their own implementation (_lazy.py): only the ops listed in
     LAZY_OPS with well-formed arguments are judged; the view family (view/reshape/flatten/unflatten/expand) of lazy stacks
     is known to be unreliable around size-0/1 dims (see REPORT_C02.md) and is not part of this check."""
     if kind == "lazy" and (malformed or op[0] not in LAZY_OPS):
         return
-    cont, sp = build_container(spec, kind, rng)
+    cont, sp = build_container(spec, kind, rng, stack_dim)
     if cont is None:
         return
     site = "shape_op" if kind == "tc" else "shape_op_lazy"
@@ -1062,3 +1112,31 @@ def run_container(run, spec, op, kind, rng, malformed=False):
         oracle(run, sp, None, op, ["oks"], dense, site=site, fp_prefix=prefix)
     else:
         oracle(run, sp, None, op, ["ok"], dense, site=site, fp_prefix=prefix)
+
+
+# --------------------------------------------------------------------------- the source of an out-of-place op stays as it was
+def meta_canon(td):
+    """batch size, names, key order, leaf shapes / dtypes, recursively, plus a cheap content fingerprint of every leaf"""
+    out = ["node", list(td.batch_size), [None if n is None else str(n) for n in td.names], bool(td.is_locked)]
+    for k, v in td.items():
+        if isinstance(v, torch.Tensor):
+            out.append([k, "leaf", list(v.shape), str(v.dtype), int(v.sum().item()) if v.numel() else 0])
+        else:
+            out.append([k, meta_canon(v)])
+    return out
+
+
+def build_lazy_operand(spec, sd, off, rot):
+    """a lazy stack along `sd` of the members of build_offset(spec, off); the entries of the members are inserted in a key order
+    rotated by `rot` (operands whose members were filled in different orders must still be paired by KEY)"""
+    from tensordict import LazyStackedTensorDict, TensorDict
+    _, bs, names, entries = spec
+    ents = list(entries)
+    if ents:
+        r = rot % len(ents)
+        ents = ents[r:] + ents[:r]
+    rspec = ("node", bs, names, ents)
+    members = []
+    for i in range(bs[sd]):
+        members.append(build_select(rspec, sd, i, off))
+    return LazyStackedTensorDict.lazy_stack(members, sd)
